@@ -270,6 +270,7 @@ class World:
             self.profile_of = {}
         self.profile_of[a] = dict(prof)
         name = prof.pop('name')
+        old_spell = self.spells.get(a)
         if 'demand' in prof:
             sp_spell, doc = spell(prof.pop('demand'), self.rng)
             self.spells[a] = [sp_spell]
@@ -281,8 +282,8 @@ class World:
             old = self.names[a]
             self.gen = getattr(self, 'gen', 0) + 1
             self.ids[old] = '%s~%d' % (a, self.gen)
-            if a in self.spells:
-                self.spells[self.ids[old]] = self.spells[a]
+            if old_spell is not None:
+                self.spells[self.ids[old]] = old_spell
         self.names[a] = ids[0]
         self.ids[ids[0]] = a
 
